@@ -151,6 +151,8 @@ func c03Menu(thorough bool) (frames, junk []namedSeg) {
 		return 0
 	}))
 	addF("FcrcD3", frameWithCRCContainingD3(1033, 9))
+	addF("FlenLowByteD3/211", ref.TypedFrame(1019, 211, fillNoD3))
+	addF("FlenLowByte00/256", ref.TypedFrame(1020, 256, fillNoD3))
 	addF("FlastPayloadD3", ref.TypedFrame(1012, 5, func(i int) byte {
 		if i == 4 {
 			return 0xD3
@@ -223,7 +225,7 @@ func classifyMismatch(got []delivered, want []ref.Seg) string {
 // C03: valid frames and D3-free junk are delivered exactly as constructed.
 func C03(r *ev.Run) {
 	thorough := r.Tier == "thorough"
-	r.Rule = "all sequences of <=3 (quick) / <=4 (thorough) segments from 14 valid frames (10 types, payload lengths 1,2,4,5,9,12,19,22,63,64,255,256,1022,1023, payload/CRC containing 0xD3) and 5 D3-free junk runs, each optionally followed by a frame truncated at every byte position; plus every payload length 1..1023 alone, between junk and back-to-back; expected output is the constructed segment list (adjacent junk merged). Non-trivial = contains at least one valid frame; distinct = distinct streams"
+	r.Rule = "all sequences of <=3 (quick) / <=4 (thorough) segments from 16 valid frames (11 types, payload lengths 1,2,4,5,9,12,19,22,63,64,211,255,256,1022,1023, payload/CRC/length byte containing 0xD3) and 5 D3-free junk runs, each optionally followed by a frame truncated at every byte position; plus every payload length 1..1023 alone, between junk and back-to-back; expected output is the constructed segment list (adjacent junk merged). Non-trivial = contains at least one valid frame; distinct = distinct streams"
 	r.Assumptions = []string{"precondition of C03 holds by construction (junk has no 0xD3 byte; frames built by the reference encoder)"}
 	frames, junk := c03Menu(thorough)
 	menu := append(append([]namedSeg{}, frames...), junk...)
@@ -257,7 +259,7 @@ func C03(r *ev.Run) {
 		depth = 4
 	}
 	// For depth 4 drop the two 1 KB frames from inner positions to bound the work.
-	tailSrc := [][]byte{frames[0].Bytes, frames[3].Bytes, frames[11].Bytes}
+	tailSrc := [][]byte{frames[0].Bytes, frames[3].Bytes, frames[11].Bytes, frames[14].Bytes[:40]}
 	sequences(len(menu), depth, func(idx []int) {
 		parts := make([]namedSeg, len(idx))
 		big := 0
@@ -293,9 +295,10 @@ func C03(r *ev.Run) {
 	// every payload length
 	lens := []int{}
 	for l := 1; l <= 1023; l++ {
-		if thorough || l <= 70 || l%31 == 0 || l >= 1000 || (l >= 250 && l <= 260) || (l >= 508 && l <= 516) || (l >= 764 && l <= 772) {
-			lens = append(lens, l)
-		}
+		// every payload length in both tiers (the sweep is cheap and lengths whose
+		// leader bytes take special values - e.g. low byte 0xD3 at 211, 467, 723,
+		// 979 - matter)
+		lens = append(lens, l)
 	}
 	j := junk[2]
 	parallelFor(len(lens), func(i int) {
